@@ -299,6 +299,48 @@ Theorem C16_test_transparent :
 Proof. exact test_transparent_both. Qed.
 Print Assumptions C16_test_transparent.
 
+(* ... and under ANY completion order of the solver pool.  A schedule is any list of events
+   TPath p (the main loop takes path p: an assertion query is handed to the pool, a stuck path is
+   solved on the spot in whatever state the cache is), TStart j (a worker enters solve_end_to_end
+   for the query of path j: the look-up sees the cache as it is then), TCb j (its done-callback
+   runs: output recorded, core learnt); events that do not apply change nothing.  For every
+   schedule the outputs in callback order, the counters, the queries still pending and the verdict
+   once the pool has drained are the same with and without the cache. *)
+Theorem C16_test_transparent_any_schedule :
+  forall (id : Type) (id_eqb : id -> id -> bool), (forall a b, id_eqb a b = true <-> a = b) ->
+  forall (formula model Va Vr : Type) (holds_a : Va -> formula -> Prop) (holds_r : Vr -> formula -> Prop),
+    (forall fs, sat formula Vr holds_r fs -> sat formula Va holds_a fs) ->
+  forall (low : bool -> query id formula -> reply id model) (refine_changes : query id formula -> bool)
+         (evs : list (tevent id formula)),
+    let ps := sched_paths id formula evs in
+    (forall q b c, In q (map snd ps) -> low b q = Unsat (Some c) -> c <> [] ->
+       if b then unsat formula Vr holds_r (select id id_eqb formula q c)
+       else unsat formula Va holds_a (select id id_eqb formula q c)) ->
+    (forall q1 q2, In q1 (map snd ps) -> In q2 (map snd ps) ->
+       forall i f1 f2, In (i, f1) q1 -> In (i, f2) q2 -> f1 = f2) ->
+    (forall q, In (KAssert, q) ps -> unsat formula Vr holds_r (map snd q) ->
+       strip id model (solve_end_to_end id id_eqb formula model low refine_changes false [] q) = Unsat None) ->
+    observe id model (s_t id formula model (sched_run id id_eqb formula model low refine_changes true evs)) =
+      observe id model (s_t id formula model (sched_run id id_eqb formula model low refine_changes false evs)) /\
+    map fst (s_jobs id formula model (sched_run id id_eqb formula model low refine_changes true evs)) =
+      map fst (s_jobs id formula model (sched_run id id_eqb formula model low refine_changes false evs)) /\
+    sched_verdict id id_eqb formula model low refine_changes true evs =
+      sched_verdict id id_eqb formula model low refine_changes false evs.
+Proof. exact sched_transparent. Qed.
+Print Assumptions C16_test_transparent_any_schedule.
+
+(* non-vacuity: the stuck path taken while the assertion query is still in the pool, and after its
+   callback has stored the core the stuck path contains: [ERROR] stuck either way, cache or not *)
+Example C16_schedule_nonvacuous :
+  let early := [TPath (KAssert, rq1); TPath (KStuck, rq2); TStart 0%nat; TCb 0%nat; TPath (KNormal, [])] in
+  let late := [TPath (KAssert, rq1); TStart 0%nat; TCb 0%nat; TPath (KStuck, rq2); TPath (KNormal, [])] in
+  sched_verdict N N.eqb (N * bool) N rlow (fun _ => true) true early = Some VStuck /\
+  sched_verdict N N.eqb (N * bool) N rlow (fun _ => true) false early = Some VStuck /\
+  sched_verdict N N.eqb (N * bool) N rlow (fun _ => true) true late = Some VStuck /\
+  sched_verdict N N.eqb (N * bool) N rlow (fun _ => true) false late = Some VStuck /\
+  sched_verdict N N.eqb (N * bool) N rlow (fun _ => true) true [TPath (KAssert, rq1); TStart 0%nat] = None.
+Proof. vm_compute. repeat split. Qed.
+
 (* THE CACHE INVARIANT IS "UNSAT AFTER REFINEMENT", NOT "UNSAT AS POSED": with a truthful solver and
    stable ids, after one assertion query whose refined file is unsat (core [1]) the cache contains a
    core that the stuck path q2 contains, and q2 is satisfiable as posed (the solver says sat).  An
